@@ -207,6 +207,10 @@ func vpRunReload(emails bool, nVersions, nValidators int, rng *mrand.Rand, dir s
 			return nil, err
 		}
 		before := atomic.LoadInt64(&loadedCount)
+		if !emails {
+			// every version carries the same modification time (and password changes keep the size): contents decide, not metadata
+			os.Chtimes(tmp, vpPinnedTime, vpPinnedTime)
+		}
 		log.add(map[string]interface{}{"kind": "write", "v": i + 1})
 		if err := os.Rename(tmp, path); err != nil {
 			close(stop)
@@ -214,7 +218,7 @@ func vpRunReload(emails bool, nVersions, nValidators int, rng *mrand.Rand, dir s
 			return nil, err
 		}
 		// wait for the reload to complete (observable for good versions), bounded
-		deadline := time.Now().Add(2 * time.Second)
+		deadline := time.Now().Add(5 * time.Second)
 		done := false
 		for time.Now().Before(deadline) {
 			if emails {
@@ -235,6 +239,10 @@ func vpRunReload(emails bool, nVersions, nValidators int, rng *mrand.Rand, dir s
 		} else if done {
 			// e-mails: the update hook fires after every load attempt, also failed ones; only good versions count as loaded
 			log.add(map[string]interface{}{"kind": "loaded", "v": i + 1})
+		} else if !emails && current != nil {
+			// (htpasswd: completion is observable through the map; for the e-mails file the hook also fires for failed loads)
+			log.add(map[string]interface{}{"kind": "notloaded", "v": i + 1})
+			break
 		}
 		time.Sleep(time.Duration(rng.Intn(3)) * time.Millisecond)
 	}
